@@ -141,7 +141,10 @@ def run_call(call):
         kw["max_workers"] = call["max_workers"]
     kw["decode_reid"] = bool(call.get("decode", False))
     try:
-        if len(call["paths"]) > 1 or call.get("concat"):
+        if call.get("glob"):
+            arr = pybes3.concatenate_raw(call["glob"], **kw)        # a pattern: the package lists the files itself
+            res["values"].append(canon(arr)); res["types"].append(str(arr.type))
+        elif len(call["paths"]) > 1 or call.get("concat"):
             arr = pybes3.concatenate_raw(call["paths"], **kw)
             res["values"].append(canon(arr)); res["types"].append(str(arr.type))
         else:
